@@ -48,6 +48,12 @@ run_one(int cfg, uint64_t u, const struct suite *cs, const struct suite *hs, int
         g.slot = 0;
         g.pl = (u & 1) ? PL_START : PL_END;
         g.dir = dir_force;
+        if (u % 6 == 5) {
+                /* long messages: kernel main loops, counter-byte carries beyond 4 KiB, 16-bit length limits */
+                static const long big[] = { 497, 511, 512, 513, 1023, 1024, 1025, 2047, 2049, 4064, 4065, 4080, 4095, 4096, 4097,
+                                            4208, 8191, 8193, 16384, 16496, 32768, 65519 };
+                g.len = rng_below(&r, 2) ? big[rng_below(&r, ARRAY_SZ(big))] : 300 + (long) rng_below(&r, 6000);
+        }
         item_gen(IT, cs, hs, &r, &g, mm);
         if (replace_src) {
                 memcpy(IT->src_orig + IT->c_off, replace_src, IT->c_len);
@@ -395,7 +401,7 @@ eng_nver(void)
                                 ev_violation("C08", key, "data encrypted by one configuration was not recovered by another",
                                              item_describe(IT));
                         }
-                        if (IT->tag_len && memcmp(IT->tag, enctag, IT->tag_len)) {
+                        if (IT->tag_len && !IT->tag_unspec && memcmp(IT->tag, enctag, IT->tag_len)) {
                                 char key[240];
                                 snprintf(key, sizeof key, "C08|enc-%s|dec-%s|%s|tag-differs", g_cfgs[a].name, g_cfgs[b].name,
                                          cipher_name(cs->cipher));
